@@ -110,6 +110,34 @@ theorem region_index (L n i : ℕ) (hL : 1 ≤ L) (hi : i < n) : (regionOf L n i
       simp only [Region.index]
       rw [not_lt] at h2; omega
 
+/-- **C17 / elementwise kernels touch every element exactly once**: two different indices below `n`
+    are never handled by the same (loop, iteration, lane) — with `region_index`, the assignment
+    index ↦ region is a bijection onto the regions the three loops visit. -/
+theorem region_injective (L n i j : ℕ) (hL : 1 ≤ L) (hi : i < n) (hj : j < n)
+    (h : regionOf L n i = regionOf L n j) : i = j := by
+  have a := region_index L n i hL hi
+  have b := region_index L n j hL hj
+  rw [h] at a
+  exact a.symm.trans b
+
+/-- the region of an index below `n` is one the loops really visit: unroll slot `< 4`, lane `< L`,
+    scalar-tail offset `< n % L`. -/
+theorem region_in_bounds (L n i : ℕ) (hL : 1 ≤ L) (hi : i < n) :
+    match regionOf L n i with
+    | .body _ j lane => j < 4 ∧ lane < L
+    | .simdTail _ lane => lane < L
+    | .scalarTail k => k < n % L := by
+  have hLpos : 0 < L := hL
+  by_cases h1 : i < 4 * (n / L / 4) * L
+  · simp only [regionOf, h1, if_true]
+    exact ⟨Nat.mod_lt _ (by decide), Nat.mod_lt _ hLpos⟩
+  · by_cases h2 : i < n / L * L
+    · simp only [regionOf, h1, h2, if_true, if_false]
+      exact Nat.mod_lt _ hLpos
+    · simp only [regionOf, h1, h2, if_false]
+      have := Nat.div_add_mod' n L
+      rw [not_lt] at h2; omega
+
 /-! ### the reductions of the code, over ℝ -/
 
 /-- `scalar_prods2`: both outputs are the plain sums. -/
